@@ -96,6 +96,7 @@ const (
 )
 
 type Task struct {
+	killed    bool // reaped by the harness (ReapBlockedSUT): unwinds with Goexit the next time it is scheduled
 	stalled   bool // descheduled until no other task can run and no event is due (StallPoint)
 	ID        int
 	Name      string
@@ -667,6 +668,9 @@ func (w *World) taskReady(t *Task) bool {
 	case stRunnable:
 		return true
 	case stBlocked:
+		if t.killed {
+			return true
+		}
 		if t.wdeadline >= 0 && w.now >= t.wdeadline {
 			return true
 		}
@@ -921,7 +925,7 @@ func (w *World) resched(cur *Task, preempt bool) {
 		return
 	}
 	park(cur)
-	if w.aborting {
+	if w.aborting || cur.killed {
 		runtime.Goexit()
 	}
 }
@@ -1251,6 +1255,31 @@ func AfterPoints(n int, deadline int64) bool {
 	ok := Block(pointWait{}, 0, "harness: waiting for SUT statements", deadline)
 	w.ptTask, w.ptLeft = nil, 0
 	return ok
+}
+
+// ReapBlockedSUT ends every task the SUT spawned that is blocked right now (the goroutines a value of the SUT
+// started and that nobody will ever wake again once the harness drops the value) and waits until they are gone.
+// For enumerations that build thousands of SUT values inside one run; a reaped task unwinds like Goexit.
+//
+//go:norace
+func ReapBlockedSUT() int {
+	w := W
+	n := 0
+	for t := w.tasks; t != nil; t = t.next {
+		if t.SUT && t.state == stBlocked && !t.killed {
+			t.killed = true
+			n++
+		}
+	}
+	if n == 0 {
+		return 0
+	}
+	for t := w.tasks; t != nil; t = t.next {
+		if t.killed && t.state != stDone {
+			Join(t, -1)
+		}
+	}
+	return n
 }
 
 // SetSched fixes a task's priority and the number of Points after which it is demoted (0 = never); call it right
